@@ -160,6 +160,22 @@ theorem swap_edges_coords (g : Geom) :
   rw [List.map_map]
   rfl
 
+/-- [T] building for argument index 0 writes slot 0 only: in `GeometryGraph::new(0, g)` the slot
+of the other operand is unset on every node and every edge (and by `swap_buildGraph` slot 0 is
+unset throughout `GeometryGraph::new(1, g)`). -/
+theorem buildGraph_other_slot_unset (g : Geom) :
+    (∀ n ∈ (buildGraph 0 g).nodes, n.label.b = .emptyLine ∨ n.label.b = .emptyArea) ∧
+    (∀ e ∈ (buildGraph 0 g).edges, e.label.b = .emptyLine ∨ e.label.b = .emptyArea) :=
+  inv_addGeometry g Graph.empty inv_empty
+
+/-- [T] the node map's iteration order (lexicographic by coordinate) does not depend on labels, so
+the swapped graph lists its nodes in the same order: the dumps of `clone_for_arg_index(1)` and of a
+fresh graph for index 1 agree position by position. -/
+theorem sortNodes_swapLabels (g : Geom) :
+    sortNodes (buildGraph 1 g).nodes = (sortNodes (buildGraph 0 g).nodes).map Node.swap := by
+  rw [← swap_buildGraph]
+  exact sortNodes_swap _
+
 /-! ### the mod-2 boundary rule (`insert_boundary_point` / `determine_boundary`) -/
 
 /-- [T] **mod-2 rule.** In the graph of a `MultiLineString`, a point that no member collapses to
